@@ -76,6 +76,9 @@ partial def asVal (j : Json) : Except String (Val Q) :=
   match j.getObjVal? "nd" with
   | .ok a => do pure (.ndarray (← (← asArr a).mapM asRat))
   | .error _ =>
+  match j.getObjVal? "it" with
+  | .ok l => do pure (.iterable (← (← asArr l).mapM asVal))
+  | .error _ =>
   match j.getObjVal? "oa", j.getObjVal? "z" with
   | .ok l, _ => do pure (.objarray (← (← asArr l).mapM asVal))
   | _, .ok z => do pure (.zerod (← getBool z "obj") (← getPy z "v"))
@@ -95,6 +98,19 @@ def asFlat (j : Json) : Except String (Flat Q) :=
       let ps ← (← asArr d).mapM asPair
       pure (.dict (← ps.mapM fun p => do pure (p.1, ← asPy p.2)))
   | _, _ => do pure (.scalar (← asPy j))
+
+partial def asCVal (j : Json) : Except String (CVal Q) :=
+  match j with
+  | .null => pure .none
+  | _ =>
+  match j.getObjVal? "s", j.getObjVal? "l", j.getObjVal? "t", j.getObjVal? "k" with
+  | .ok (.str s), _, _, _ => pure (.str s)
+  | _, .ok l, _, _ => do pure (.seq false (← (← asArr l).mapM asCVal))
+  | _, _, .ok l, _ => do pure (.seq true (← (← asArr l).mapM asCVal))
+  | _, _, _, .ok d => do
+      let ps ← (← asArr d).mapM asPair
+      pure (.dict (← ps.mapM fun p => do pure (p.1, ← asCVal p.2)))
+  | _, _, _, _ => do pure (.atom (← asPy j))
 
 def getVal (j : Json) (k : String) : Except String (Val Q) :=
   match j.getObjVal? k with | .ok v => asVal v | .error _ => .error s!"!bad-arg:{k}"
@@ -140,7 +156,10 @@ def h : Handler := fun op j =>
   match op with
   | "to_unitless" => do
       out showRes (toUnitlessOpt (← getVal j "v") (← getPyOpt j "u"))
-  | "unit_of" => do out showPy (unitOf (← getFlat j "v"))
+  | "unit_of" => do
+      match j.getObjVal? "simplified" with
+      | .ok (.bool b) => out showPy (unitOfS b (← getFlat j "v"))
+      | _ => out showPy (unitOf (← getFlat j "v"))
   | "rescale" => do out showPy (rescale (← getPy j "v") (← getPy j "u"))
   | "is_unitless" => do pure (showBool (isUnitless (← getVal j "v")))
   | "uniform" => do out showFlat (uniform (← getFlat j "v"))
@@ -158,8 +177,28 @@ def h : Handler := fun op j =>
       | .ok r => do out showPy (getDerivedUnit (some (← asPyList r)) key)
       | .error _ => .error "!bad-arg:reg"
   | "to_human" => do
-      let es ← (← getArr j "entries").mapM asRegEntry
-      out (fun l => "[" ++ ",".intercalate (l.map showHuman) ++ "]") (toHuman es)
+      let reg : Option (List (RegEntry Q)) ← match j.getObjVal? "entries" with
+        | .ok .null => pure none
+        | _ => do pure (some (← (← getArr j "entries").mapM asRegEntry))
+      out (fun o => match o with
+        | none => "None"
+        | some l => "[" ++ ",".intercalate (l.map showHuman) ++ "]") (toHumanOpt reg)
+  | "from_human" => do
+      let tab ← (← getArr j "table").mapM fun t => do
+        let p ← asPair t
+        pure (p.1, ← (← asArr p.2).mapM asSymExp)
+      let lookup : String → Option (List (SymUnit Q × Int)) := fun s => tab.lookup s
+      let hs : Option (List (HumanEntry Q)) ← match j.getObjVal? "entries" with
+        | .ok .null => pure none
+        | _ => do
+          let es ← (← getArr j "entries").mapM fun e => match e with
+            | .arr #[f, .str sym] => do pure (HumanEntry.fs (← asRat f) sym)
+            | .arr #[_, _] => pure HumanEntry.one          -- (factor, 1): only factor 1 is sent
+            | _ => .error "!bad-arg:human-entry"
+          pure (some es)
+      out (fun o => match o with
+        | none => "None"
+        | some l => "[" ++ ",".intercalate (l.map showRegEntry) ++ "]") (fromHumanOpt lookup hs)
   | "human_roundtrip" => do
       let es ← (← getArr j "entries").mapM asRegEntry
       let tab ← (← getArr j "table").mapM fun t => do
@@ -173,6 +212,19 @@ def h : Handler := fun op j =>
   | "compare_equality" => do pure (showBool (compareEquality (← getPy j "a") (← getPy j "b")))
   | "allclose" => do
       out showBool (allcloseScalar (← getPy j "a") (← getPy j "b") (← getRat j "rtol") (← getPyOpt j "atol"))
+  | "allclose_arrays" => do
+      out showBool (allcloseArrays (← getBool j "a_scalar") (← getPyList j "a") (← getPyList j "b") (← getRat j "rtol") (← getPyOpt j "atol"))
+  | "allclose_u" => do
+      let mu (k : String) : Except String (MaybeUncertain Q) := do
+        let v ← getPy j k
+        match j.getObjVal? (k ++ "_unc"), v with
+        | .ok u, .qty q => do pure (.uncertain q (← asRat u))
+        | _, _ => pure (.plain v)
+      out showBool (allcloseU (← mu "a") (← mu "b") (← getRat j "rtol") (← getPyOpt j "atol"))
+  | "compare_equality_c" => do
+      let a ← match j.getObjVal? "a" with | .ok v => asCVal v | .error _ => .error "!bad-arg:a"
+      let b ← match j.getObjVal? "b" with | .ok v => asCVal v | .error _ => .error "!bad-arg:b"
+      out showBool (compareEqualityC 8 a b)
   | "allclose_list" => do
       pure (showBool (allcloseList (← getPyList j "a") (← getPyList j "b") (← getRat j "rtol") (← getPyOpt j "atol")))
   | "linspace" => do out showPyList (linspace (← getPy j "start") (← getPy j "stop") (← getNat j "num"))
